@@ -28,6 +28,8 @@ type c07Side struct {
 	reads   [][]byte // what Conn.Read returned, in order
 	readErr error
 	reader  bool
+	gate    chan struct{} // non-nil: the application is not reading for the moment (the reader waits here between reads)
+	flooded bool
 
 	expect      [][]byte // delivered non-STUN datagrams from known remotes, in delivery order
 	expectSrc   []netip.AddrPort
@@ -144,13 +146,15 @@ func runC07(c *core.Ctx) {
 		o.startReaders()
 		o.check()
 		refreshKnown()
-		switch c.T.Pick([]int{12, 4, 2, 1}, "c07op") {
+		switch c.T.Pick([]int{48, 16, 8, 4, 1}, "c07op") {
 		case 1:
 			o.write()
 		case 2:
 			o.injectData()
 		case 3:
 			o.tcpRemote()
+		case 4:
+			o.flood()
 		}
 		o.check()
 		refreshKnown()
@@ -311,7 +315,11 @@ func (o *c07Oracle) startReaders() {
 					return
 				}
 				s.reads = append(s.reads, append([]byte(nil), buf[:n]...))
+				g := s.gate
 				s.mu.Unlock()
+				if g != nil {
+					<-g
+				}
 			}
 		}()
 	}
@@ -603,7 +611,25 @@ func (o *c07Oracle) injectData() {
 	dst := rig.CandAP(locals[c.T.Choose(len(locals), "dst")])
 	var src netip.AddrPort
 	kind := ""
-	switch c.T.Pick([]int{3, 3, 2, 2}, "datasrc") {
+	switch c.T.Pick([]int{3, 3, 2, 2, 3}, "datasrc") {
+	case 4:
+		// a transport address of the peer that this agent has not learnt yet (trickle is still under way, or the
+		// candidate is held back): unknown now - once it is signalled or discovered, data from it is accepted
+		known := map[netip.AddrPort]bool{}
+		for _, rc := range s.ag.RemoteCands() {
+			known[rig.CandAP(rc)] = true
+		}
+		var early []netip.AddrPort
+		for _, pc := range s.peer.ag.LocalCands() {
+			if ap := rig.CandAP(pc); pc.NetworkType().IsUDP() && !known[ap] {
+				early = append(early, ap)
+			}
+		}
+		if len(early) > 0 {
+			src, kind = early[c.T.Choose(len(early), "which")], "peer-address-not-yet-known"
+			break
+		}
+		fallthrough
 	case 0:
 		if _, r, ok := s.ag.SelectedPair(); ok {
 			src, kind = r, "selected-remote"
@@ -640,6 +666,99 @@ func (o *c07Oracle) injectData() {
 	c.Fault("data-inject:" + kind)
 	c.Logf("data inject %s %s -> %s len=%d", kind, src, dst, len(payload))
 	d.S.Deliver(dg)
+}
+
+// flood: the application stops reading while the peer's selected address sends more than the agent buffers (a
+// stalled reader is the application's doing; what the agent sheds is lost like any datagram on a full socket
+// buffer). What the reader gets afterwards is a subsequence of what arrived - in order, unmodified, nothing
+// twice - and the byte counter and the selected pair's receive counters still equal what Read returned: a
+// datagram that was shed was never received.
+func (o *c07Oracle) flood() {
+	c, d := o.c, o.d
+	s := o.sides[c.T.Choose(2, "floodtarget")]
+	if s.ag.Conn == nil || s.flooded || !s.reader {
+		return
+	}
+	l, r, ok := s.ag.SelectedPair()
+	if !ok || !o.knownUDP(s, r) {
+		return
+	}
+	s.flooded = true
+	gate := make(chan struct{})
+	s.mu.Lock()
+	s.gate = gate
+	s.mu.Unlock()
+	first := len(s.expect)
+	n := 132 + c.T.Choose(24, "floodn")
+	for i := 0; i < n; i++ {
+		pl := make([]byte, 8192)
+		tag := fmt.Sprintf("\x40flood-%s-%04d:", s.ag.Name, i)
+		for j := range pl {
+			pl[j] = tag[j%len(tag)]
+		}
+		d.S.Deliver(d.W.Inject(r, l, pl, "flood"))
+	}
+	c.Fault("reader-stalled-during-flood")
+	d.S.Settle()
+	s.mu.Lock()
+	s.gate = nil
+	s.mu.Unlock()
+	close(gate)
+	d.S.Settle()
+	// reconcile: the reads from `first` on must be a subsequence of what arrived
+	s.mu.Lock()
+	reads := append([][]byte(nil), s.reads...)
+	s.mu.Unlock()
+	var keep [][]byte
+	var keepSrc []netip.AddrPort
+	j := first
+	shed := 0
+	for i := first; i < len(reads); i++ {
+		for j < len(s.expect) && !bytes.Equal(s.expect[j], reads[i]) {
+			if !bytes.HasPrefix(s.expect[j], []byte("\x40flood-")) {
+				c.Failf("C07/reader-missed-packet", "%s: while its reader was stalled by a flood an ordinary datagram (%q) was lost or overtaken", s.ag.Name, trunc(s.expect[j]))
+				return
+			}
+			if s.selKey != "" {
+				s.tallyPR--
+				s.tallyBR -= uint64(len(s.expect[j]))
+			}
+			shed++
+			j++
+		}
+		if j >= len(s.expect) {
+			c.Failf("C07/reader-got-unexpected-packet", "%s: after the flood the reader returned %q, which is not among the datagrams that arrived after the previous one it returned (order changed, duplicate, or fabricated)", s.ag.Name, trunc(reads[i]))
+			return
+		}
+		keep, keepSrc = append(keep, s.expect[j]), append(keepSrc, s.expectSrc[j])
+		j++
+	}
+	for ; j < len(s.expect); j++ {
+		if !bytes.HasPrefix(s.expect[j], []byte("\x40flood-")) {
+			c.Failf("C07/reader-missed-packet", "%s: an ordinary datagram (%q) that arrived during the flood never reached the reader", s.ag.Name, trunc(s.expect[j]))
+			return
+		}
+		if s.selKey != "" {
+			s.tallyPR--
+			s.tallyBR -= uint64(len(s.expect[j]))
+		}
+		shed++
+	}
+	s.expect = append(s.expect[:first], keep...)
+	s.expectSrc = append(s.expectSrc[:first], keepSrc...)
+	if shed > 0 {
+		c.Probe("receive-buffer-overflowed")
+	}
+	c.Logf("flood %s: %d datagrams, %d shed", s.ag.Name, n, shed)
+}
+
+func (o *c07Oracle) knownUDP(s *c07Side, ap netip.AddrPort) bool {
+	for _, rc := range s.ag.RemoteCands() {
+		if rc.NetworkType().IsUDP() && rig.CandAP(rc) == ap {
+			return true
+		}
+	}
+	return false
 }
 
 func (o *c07Oracle) tcpRemote() {
